@@ -118,3 +118,37 @@ func specSignOff(input []byte) int {
 	}
 	return 0
 }
+
+// ---------------------------------------------------------------- Token.Int / Uint / Float: exact conversion is delegated at the right width (C22)
+//
+// The numeric value is produced by strconv; what is decided here is that the text handed to it is
+// the token's own text (for integers: the normalised digit string) in base 10 and that the
+// conversion is asked for exactly the caller's bit size - so range checking and (for floats)
+// rounding happen once, at the field's precision.
+
+// @ props C22
+// @ mode int
+// @ nopanic
+// @ callsite strconv.ParseFloat: arg[int](1) == bitSize
+func contract_Token_Float(t Token, bitSize int) (f float64, ok bool) {
+	modifiesAll()
+	return
+}
+
+// @ props C22
+// @ mode int
+// @ nopanic
+// @ callsite strconv.ParseInt: arg[int](1) == 10 && arg[int](2) == bitSize && arg[string](0) == s
+func contract_Token_Int(t Token, bitSize int) (n int64, ok bool) {
+	modifiesAll()
+	return
+}
+
+// @ props C22
+// @ mode int
+// @ nopanic
+// @ callsite strconv.ParseUint: arg[int](1) == 10 && arg[int](2) == bitSize && arg[string](0) == s
+func contract_Token_Uint(t Token, bitSize int) (n uint64, ok bool) {
+	modifiesAll()
+	return
+}
